@@ -979,6 +979,19 @@ class SymSeq(SymBase):
     def sym_len(self):
         return wrap_int(self.length)
 
+    def __snapshot__(self):
+        """The sequence as it is now (append and pop replace the state of the original)."""
+        q = SymSeq(self.elem, self.length, name=self.name)
+        spec = getattr(self, "spec", None)
+        state = getattr(self, "state", None)
+        if spec is not None and state is not None:
+            q.spec, q.state = spec, state
+            q.elem = lambda i, st=state: spec.val.arr_select(st, i)
+        for extra in ("sorted", "container", "cursor", "ids", "idx", "parts", "source"):
+            if hasattr(self, extra):
+                setattr(q, extra, getattr(self, extra))
+        return q
+
     def append(self, v):
         """list.append for array-backed sequences (those made by types.SeqOf)."""
         spec = getattr(self, "spec", None)
